@@ -155,7 +155,7 @@ def run(ctx):
     rng = ctx.rng
     ctx.extra["rule"] = ("weights assembled from the 8 degenerate row classes in random mixtures, all six qtypes, axis 0/-1, group sizes, three dtypes; calibration on zero/constant/tiny/normal batch sequences followed by inference; "
                          "zero-weight Linear/Conv2d layers for all qtypes/dtypes/frozen states. distinct = (qtype,F,axis,group,shape,data hash); non-trivial = contains a non-'mixed' class")
-    n = 600 if not ctx.thorough else 10000
+    n = 600 if not ctx.thorough else 30000
     lines, expect, meta, spec_lines, spec_meta = [], [], [], [], []
     aff_cases = []
     for _ in range(n):
